@@ -36,7 +36,7 @@ CLAIMED = {
    ref="6 C07"),
  "C08": dict(
    text="Panic-freedom on arbitrary input: every byte string of length 0..6 (quick) / 0..8 (thorough) fed to each packet field decoder and combinator, frame unpacking in both modes (compressed content arbitrary via the model codec), BitStorage/PaletteContainer/Section.ReadFrom and Chunk.PutData from fresh and used receivers. Every Go run-time panic site (index, slice bound, make, nil, division, explicit panic) is a solver query on every path; negative length prefixes are covered for the full int32 range.",
-   note="accepted non-negative length prefixes are enumerated only up to input length + 2; JSON text components, chat NBT components and registry data are not covered. Also covered (reflect shim): Ary with 5 prefix types, NBTField into any/struct/map, BlockEntity and Chunk.ReadFrom incl. structured height maps of wrong sizes; the command dispatcher on every ASCII line of 0..5 (quick) / 0..6 bytes against three graphs built with the public builders.",
+   note="accepted non-negative length prefixes are enumerated only up to input length + 2; JSON text components are not covered (encoding/json). Also covered (reflect shim): Ary with 5 prefix types, NBTField into any/struct/map, BlockEntity and Chunk.ReadFrom incl. structured height maps of wrong sizes; the command dispatcher on every ASCII line of 0..5 (quick) / 0..6 bytes against three graphs built with the public builders.",
    ref="6 C08"),
  "C09": dict(
    text="For every byte string of length 0..5 (quick) / 0..9 (thorough) and each of 14 stream decoders (fixed-width fields, VarInt/VarLong, Position, UUID, String, ByteArray, BitSet, FixedBitSet, Option, uncompressed frame): the result under 1/2/3-byte chunks and under EVERY division of the stream into short reads (each Read call delivers an arbitrary count) equals the contiguous read (value, count, error-ness, residual); a reader failing or ending at every offset before completion yields an error; a writer failing after k bytes makes WriteTo/Pack (plain and compressed) fail for every k. NBT: RawMessage, StringifiedMessage and dynbt.Value decoding of every byte string of 0..6/8 bytes, typed decoding of the catalogue document and of root values of 8 kinds into typed and `any` targets, under chunks of 1/2/3/5 bytes and under one short read placed at any multi-byte read; reader failure/EOF at every offset; typed Encode, RawMessage, StringifiedMessage.MarshalNBT, dynbt MarshalNBT and root-value Encode against a writer that fails at any offset, permanently or once. Compressed frames and RCON ReadPacket under the same schedules, truncation/failure at every offset, WritePacket with a failing writer.",
@@ -88,7 +88,7 @@ EXTRA = {
  "C04": " Also: byte/int/long arrays, lists and strings of 1025/300/140/1100/5000 (thorough up to 70000) elements through binary -> text -> binary with one arbitrary element at the 1024 boundary. Integer literals around every range limit (all 3-digit, thorough 5-digit, magnitudes; two arbitrary final digits after concrete prefixes around 2^31, 2^32, 2^63, 2^64) alone, as array element and as compound value: exact in range, never a wrapped number out of range. A fixed valid text of each container kind converts to its reference bytes after any earlier text of 2..5 (thorough 2..7) bytes, accepted or rejected.",
  "C06": " Also: String, ByteArray, Ary[VarInt], BitSet and Tuple{String,Int} at 127/128/300/16384/70000 (thorough also 129/16383/32767) elements with arbitrary contents, whole-value comparison and exact counts.",
  "C07": " Also: frames of 300 KiB and just below the 2 MiB limit (Packet Length of 4 VarInt bytes) in every threshold class against the independent frame reader; packets received earlier and held in their own Packet stay intact across later Pack/UnPack calls with always-reused pooled buffers.",
- "C08": " Also: arrays declaring 0..70001 and 2^22 elements over streams holding 1500/5000 (thorough 70000) elements: never a panic, success exactly when every declared element is present.",
+ "C08": " Also: Registry.ReadFrom (raw and typed entries) and ReadTagsFrom on every byte string of 0..7 (thorough 0..9) bytes, fresh and populated; text components in NBT form and chat-type headers on every byte string of 0..7 (thorough 0..9) bytes; declared sizes of 32767..2^22 over streams of 0..3 bytes for String, ByteArray, BitSet, Ary, Identifier and both frame modes; arrays declaring 0..70001 and 2^22 elements over streams holding 1500/5000 (thorough 70000) elements: never a panic, success exactly when every declared element is present.",
  "C10": " Also: single calls of 1025 and 4097 (thorough 2049) bytes in every buffer arrangement; the encrypted Conn over a transport delivering 1 or 3 bytes per Read.",
  "C12": " Also: with-data constructors with palettes beyond the indirect range (257/300 block states, 9/16/17 biomes: the saved form indexes its own palette).",
  "C13": " Also: the save form of a container in every representation class (1..300 distinct states, 1..64 biomes) read back by the with-data constructors position by position; ChunkToSave -> ChunkFromSave of a chunk with sections over a four-state mini registry whose ids and names coincide with the real registry (air, stone, granite, polished granite), with arbitrary blocks at chosen positions, a biome, light arrays absent / present-and-dark / present with arbitrary bytes, status and a height map.",
